@@ -1,47 +1,207 @@
 """C01 — relayed byte streams arrive exactly once, in order, unmodified.
-Correspondence of Net/Conn.v (TcpConnection) and Net/Handler.v (HttpProtocolHandler + HttpProxyPlugin relay)
-with the real classes driven through harness/sim.py, plus the property's own statement on the implementation."""
+Correspondence of Net/Conn.v (TcpConnection), Net/Handler.v (HttpProtocolHandler + HttpProxyPlugin relay) and
+Net/Tunnel.v (BaseTcpTunnelHandler) with the real classes driven through harness/sim.py, plus the property's own
+statement evaluated on the implementation (independent of the model)."""
+import os, socket, time
 import common as C
 from props import net_common as NC
 
 ID = 'C01'
-COQ_TARGETS = ['theories/Props/C01.vo', 'theories/Net/ConnCases.vo']
-IMPORTS = 'From PM Require Import Lib.Bytes Net.Conn Net.ConnCases.'
-CASE_TYPE = 'conn_case'
-CHECK_FN = 'check_conn_case'
+COQ_TARGETS = ['theories/Props/C01.vo', 'theories/Net/RelayCases.vo']
+IMPORTS = NC.net_imports()
+CASE_TYPE = 'net_case'
+CHECK_FN = 'check_net_case'
 ANCHOR_FILES = ['proxy/core/connection/connection.py', 'proxy/core/base/tcp_server.py', 'proxy/http/handler.py',
                 'proxy/http/proxy/server.py', 'proxy/core/base/tcp_tunnel.py']
-RULE = 'conn cases = op lists over queue/flush(max, send outcome)/close on a real TcpClientConnection around a fake socket'
-TRUSTED = []
-ASSUMPTIONS = []
-SHARD = 200
+RULE = ('conn cases = op lists over queue / flush(max_send, scripted send outcome) / close on a real TcpClientConnection around a '
+        'fake socket; relay cases = event lists (ready descriptors + outcome of every recv/send: data piece, EOF, reset, timeout, '
+        'Accept k, would-block, broken pipe) driving the real HttpProtocolHandler+HttpProxyPlugin (or the BaseTcpTunnelHandler '
+        'subclass of examples/) one handle_events() call per event with max_sendbuf_size 1..9: CONNECT tunnels with random binary '
+        'data both ways, HTTP exchanges with well-formed responses in every framing (CL, chunked +extensions +trailers, '
+        'close-delimited, 1xx, pipelined) under random segmentation, a separate malformed-upstream stream, web/404/bad-request/'
+        'connect-failure first requests; a case is non-trivial when an exchange was established, upstream bytes were relayed and '
+        'at least one send was short or blocked; distinct = distinct inputs')
+TRUSTED = ['the first-request parser / plugin dispatch and the pipelined-request parser are ABSTRACT in Net/Handler.v: their outcome per '
+           'handle_data call (incomplete / rejected with these pieces / proxied, tunnel?, rebuilt bytes / served locally) is read off '
+           'the real objects at the handle_data boundary and given to the model as the oracle of that event',
+           'FakeSock (harness/sim.py) stands for a non-blocking kernel socket: send accepts min(k, offered) bytes or raises; recv returns the scripted piece']
+ASSUMPTIONS = ['no user plugins (hook chains are the identity), --enable-conn-pool off, no TLS interception',
+               'model describes the tree with proposed_fixes/C01-guard-response-parse.diff and C07-write-side-teardown.diff applied']
+SHARD = 40
 
 
 def generate(rng, tier):
+    quick = tier != 'thorough'
     cases = []
-    n = 150 if tier != 'thorough' else 3000
-    for _ in range(n):
+    for _ in range(60 if quick else 1500):
         cases.append(dict(kind='conn', ops=NC.gen_conn_ops(rng, rng.choice([3, 8, 15, 30]))))
+    # boundary stream for TcpConnection: piece lengths around max_send, accepts around the offered length
+    for m in range(1, 10):
+        for ln in (m - 1, m, m + 1, 2 * m, 2 * m + 1):
+            if ln <= 0:
+                continue
+            for k in (ln - 1, ln, ln + 1, m - 1, m, m + 1):
+                if k < 0 or (quick and (m + ln + k) % 3):
+                    continue
+                data = NC.rand_bytes(rng, ln)
+                cases.append(dict(kind='conn', ops=[['q', data], ['q', b'xy'], ['f', m, k], ['f', m, 'block'], ['f', m, 100000],
+                                                    ['f', m, 100000], ['f', m, 100000]]))
+    n = 170 if quick else 6000
+    for i in range(n):
+        c = NC.gen_relay(rng, profile='relay', n_events=rng.choice([10, 16, 24, 32]) if quick else rng.choice([20, 40, 80, 120]))
+        cases.append(c)
     return cases
 
 
 def run_impl(case):
     if case['kind'] == 'conn':
         return NC.run_conn_ops(case['ops'])
-    raise ValueError(case['kind'])
+    return NC.run_relay(case)
 
 
 def coq_term(case, out):
     if case['kind'] == 'conn':
-        return NC.coq_conn_case(case['ops'], out)
+        return 'NConn (%s)' % NC.coq_conn_case(case['ops'], out)
+    return 'NRelay (%s)' % NC.coq_relay_case(case, out)
+
+
+def model_expr(case):
+    out = run_impl(case)
+    if case['kind'] == 'conn':
+        return 'conn_run new_conn %s' % C.coq_list(NC.coq_conn_op(op) for op in case['ops'])
+    return 'model_output (%s)' % NC.coq_relay_case(case, out)
+
+
+def first_request(case, out):
+    data = b''
+    for ev in out['events']:
+        if isinstance(ev.get('c_recv'), (bytes, bytearray)):
+            data += bytes(ev['c_recv'])
+            if b'\r\n\r\n' in data:
+                break
+    return data
 
 
 def oracle(case, out):
     if case['kind'] == 'conn':
         return NC.conn_oracle(case['ops'], out)
+    steps, fin = out['steps'], out['fin']
+    if not any(s['established'] for s in steps):
+        return None                      # no proxied exchange was established: nothing to relay
+    is_tunnel = first_request(case, out).startswith(b'CONNECT ')
+    A = NC.ack_packet() if is_tunnel else b''
+    # every byte the upstream sent (= every byte recv() handed to the proxy) reaches the client once, in order,
+    # unmodified, preceded only by the acknowledgement: received by the client ++ still buffered == ack ++ upstream bytes
+    want = A + fin['uprcvd']
+    have = fin['cout'] + fin['cpend']
+    if have != want:
+        return ('client stream broken: client received %d + %d buffered bytes, expected ack(%d) + %d upstream bytes; first difference at %d; '
+                'handler result %s %s' % (len(fin['cout']), len(fin['cpend']), len(A), len(fin['uprcvd']),
+                                          next((i for i, (a, b) in enumerate(zip(have, want)) if a != b), min(len(have), len(want))),
+                                          fin['res'], fin['trace']))
+    prev = 0
+    for i, s in enumerate(steps):
+        if s['csent'] < prev:
+            return 'bytes at the client peer shrank at step %d' % i
+        if s['established'] and s['csent'] + s['cpend'] != len(A) + s['uprcvd_len']:
+            return 'step %d: delivered %d + pending %d != ack %d + upstream received %d' % (i, s['csent'], s['cpend'], len(A), s['uprcvd_len'])
+        ev = out['events'][i]
+        k = ev.get('c_send')
+        if i and 'client' in ev.get('w', ()) and (s['int'] & 2) and isinstance(k, int) and k > 0 and steps[i - 1]['cpend'] > 0 \
+                and s['csent'] == prev:
+            return 'step %d: no progress although the client socket accepted k=%d > 0 with %d bytes pending' % (i, k, steps[i - 1]['cpend'])
+        prev = s['csent']
+    if is_tunnel:
+        if fin['uout'] + fin['upend'] != fin['clrcvd']:
+            return 'tunnel client->upstream stream broken: upstream received %d + %d buffered, client sent %d' % (
+                len(fin['uout']), len(fin['upend']), len(fin['clrcvd']))
+        for i, s in enumerate(steps):
+            if s['established'] and s['usent'] + s['upend'] != s['clrcvd_len']:
+                return 'step %d: upstream delivered %d + pending %d != client bytes %d' % (i, s['usent'], s['upend'], s['clrcvd_len'])
+    return None
 
 
 def nontrivial(case, out):
     if case['kind'] == 'conn':
-        return len(out['out']) > 0
-    return False
+        return len(out['out']) > 0 and any(op[0] == 'f' and (op[2] == 'block' or (isinstance(op[2], int) and op[2] < 9)) for op in case['ops'])
+    fin = out['fin']
+    short = any(l[0] == 'send' and l[2] < l[1] for l in fin['client_log']) or any(l[0] == 'send_err' for l in fin['client_log'])
+    return any(s['established'] for s in out['steps']) and len(fin['uprcvd']) > 0 and short
+
+
+def shrink(case, fails):
+    if case['kind'] == 'conn':
+        ops = list(case['ops'])
+        changed = True
+        while changed:
+            changed = False
+            for i in range(len(ops)):
+                c2 = dict(case, ops=ops[:i] + ops[i + 1:])
+                if fails(c2):
+                    ops = c2['ops']; changed = True
+                    break
+        return dict(case, ops=ops)
+    evs = list(case['events'])
+    changed = True
+    while changed and len(evs) > 1:
+        changed = False
+        for i in range(len(evs) - 1, -1, -1):
+            c2 = dict(case, events=evs[:i] + evs[i + 1:])
+            try:
+                bad = fails(c2)
+            except Exception:
+                bad = False
+            if bad:
+                evs = c2['events']; changed = True
+                break
+    return dict(case, events=evs)
+
+
+def extra_checks(rng, tier):
+    """thorough: exhaustive accept patterns for <= 3 queued pieces x <= 6 bytes on the real TcpConnection, and
+    multi-megabyte transfers through real socketpairs with a slow reader (oracle only)."""
+    failures, notes = [], []
+    if tier != 'thorough':
+        return {}
+    import itertools
+    n = 0
+    for pieces in ([b'abcdef'], [b'ab', b'cdef'], [b'a', b'', b'bcde'], [b'abc', b'de', b'f']):
+        total = sum(map(len, pieces))
+        for m in (1, 2, 3, 6, 7):
+            for pat in itertools.product([0, 1, 2, 3, 7, 'block'], repeat=4):
+                ops = [['q', p] for p in pieces] + [['f', m, k] for k in pat] + [['f', m, 100000]] * (total + len(pieces))
+                out = NC.run_conn_ops(ops)
+                n += 1
+                f = NC.conn_oracle(ops, out)
+                if not f and out['out'] != b''.join(pieces):
+                    f = 'buffer not drained by enough full accepts'
+                if f:
+                    failures.append(dict(case=dict(kind='conn', ops=ops), out=out, what=f))
+    notes.append('exhaustive accept patterns on TcpConnection: %d op lists' % n)
+    # real socketpairs
+    from proxy.core.connection import TcpClientConnection
+    for size in (1 << 20, 3 << 20, 8 << 20):
+        a, b = socket.socketpair()
+        a.setblocking(False)
+        b.setblocking(False)
+        conn = TcpClientConnection(a, ('pair', 0))
+        data = bytes(rng.randrange(256) for _ in range(4096)) * (size // 4096)
+        step = 1 << 16
+        for i in range(0, len(data), 3 * step + 7):
+            conn.queue(memoryview(data[i:i + 3 * step + 7]))
+        got = bytearray()
+        t0 = time.time()
+        while (conn.has_buffer() or len(got) < len(data)) and time.time() - t0 < 60:
+            if conn.has_buffer():
+                conn.flush(rng.choice([1 << 12, 1 << 16, None]))
+            if rng.random() < 0.7:
+                try:
+                    got += b.recv(rng.choice([1 << 10, 1 << 14, 1 << 18]))
+                except BlockingIOError:
+                    pass
+        a.close(); b.close()
+        if bytes(got) != data:
+            failures.append(dict(case=dict(kind='socketpair', size=size), out=dict(got=len(got)),
+                                 what='real socketpair transfer of %d bytes arrived damaged or incomplete (%d bytes)' % (size, len(got))))
+    notes.append('real socketpair transfers 1, 3, 8 MiB with a slow reader: compared byte for byte')
+    return dict(failures=failures, notes=notes, exhaustive_conn_patterns=n)
